@@ -18,12 +18,15 @@ def classify_raise(ex):
     return f"other:{type(ex).__name__}:{msg[:120]}"
 
 
-def model_event(ns, tid, seq, model, I, live=None):
+def model_event(ns, tid, seq, model, I, live=None, theorems=()):
     """build (unless given) and observe one lattice model"""
-    ev = {"tid": tid, "seq": seq, "ev": "Model", "T": efx.topo_json(model), "I": I, "raised": "none", "obs": []}
+    ev = {"tid": tid, "seq": seq, "ev": "Model", "T": efx.topo_json(model), "I": I, "raised": "none", "obs": [],
+          "theorems": list(theorems)}
     try:
         if live is None:
             live = efx.build(ns, model)
+        elif callable(live):
+            live = live()            # an edit of an already built system: may raise like a build
         ev["obs"] = lattice.observe(ns, live, model, I)
     except lattice.OffLattice:
         raise
@@ -41,13 +44,233 @@ def validate(workdir, events, focus=()):
     return tracecheck.validate(workdir, "Trace_Numeric", trace, {"Focus": foc})
 
 
-def random_events(ns, seeds, **gen_kw):
+def random_events(ns, seeds, theorems=(), **gen_kw):
     events, models = [], {}
     for tid, seed in enumerate(seeds, start=1):
         rng = random.Random(seed)
         model, I = lattice.lattice_objects(rng, **gen_kw)
-        ev, _live = model_event(ns, tid, 0, model, I)
+        ev, _live = model_event(ns, tid, 0, model, I, theorems=theorems)
         ev["seed"] = seed
         events.append(ev)
         models[tid] = (model, I)
     return events, models
+
+
+# ---------------------------------------------------------------------------
+# C02: the system total and its views, in mg
+
+def _mg_series(ns, v, what):
+    return lattice.series(ns, v, "mg", 1, what) if not isinstance(v, ns.EmptyExplainableObject) else {"h": [], "v": []}
+
+
+def _round_series(ns, v):
+    """hourly value in mg rounded to the nearest integer (the total is rounded by the code itself)"""
+    if isinstance(v, ns.EmptyExplainableObject):
+        return {"h": [], "v": []}, True, False
+    df = v.value
+    f = efx._base_factor(ns, df.dtypes.iloc[0].units) / efx._base_factor(ns, ns.u("mg").units)
+    hours = [int(t) // efx.EPOCH_NS_PER_H for t in df.index.asi8]
+    raw = [float(x) * f for x in df["value"].values._data]
+    import math
+    finite = all(math.isfinite(x) for x in raw)
+    negative = any(x < -1e-9 for x in raw if math.isfinite(x))
+    vals = [int(round(x)) if math.isfinite(x) else 0 for x in raw]
+    if any(abs(x) >= 2 ** 30 for x in vals):
+        raise lattice.OffLattice("footprint above 2^30 mg in one hour")
+    return {"h": hours, "v": vals}, finite, negative
+
+
+def _mg_scalar(ns, q):
+    f = efx._base_factor(ns, q.value.units) / efx._base_factor(ns, ns.u("mg").units)
+    x = float(q.value.magnitude) * f
+    if abs(x) >= 2 ** 30:
+        raise lattice.OffLattice("sum over period above 2^30 mg")
+    return int(round(x))
+
+
+def totals_event(ns, tid, seq, model, I, live):
+    system = live[efx.system_name(model)]
+    by_id = {o.id: n for n, o in live.items()}
+    ev = {"tid": tid, "seq": seq, "ev": "Totals", "T": efx.topo_json(model), "I": I, "comps": [],
+          "nonfinite": [], "negative": []}
+    ev["total"], fin, neg = _round_series(ns, system.total_footprint)
+    if not fin:
+        ev["nonfinite"].append("sys.total_footprint")
+    views = {"energy_members": {}, "fab_members": {}, "energy_sum": {}, "energy_objects_sum": {}, "fab_sum": {},
+             "fab_objects_sum": {}}
+    for part, per_obj, sums_obj, sums_cat in (
+            ("energy", system.energy_footprints, system.energy_footprint_sum_over_period,
+             system.total_energy_footprint_sum_over_period),
+            ("fab", system.fabrication_footprints, system.fabrication_footprint_sum_over_period,
+             system.total_fabrication_footprint_sum_over_period)):
+        for cat, d in per_obj.items():
+            members = []
+            for oid, val in d.items():
+                if oid not in by_id:
+                    continue            # the placeholder key "networks" of the fabrication view
+                name = by_id[oid]
+                members.append(name)
+                ser, fin, neg = _round_series(ns, val)
+                if not fin:
+                    ev["nonfinite"].append(f"{name}.{part}")
+                if neg:
+                    ev["negative"].append(f"{name}.{part}")
+                ev["comps"].append(dict(o=name, part=part, **ser))
+            views[f"{part}_members"][cat] = sorted(members)
+            views[f"{part}_objects_sum"][cat] = sum(_mg_scalar(ns, q) for k, q in sums_obj[cat].items() if k in by_id)
+            views[f"{part}_sum"][cat] = _mg_scalar(ns, sums_cat[cat])
+    ev["views"] = views
+    ev["finite"] = not ev["nonfinite"]
+    return ev
+
+
+# ---------------------------------------------------------------------------
+# C12: a model and the same model with one driver multiplied by k
+
+def scaled_model(model, I, driver, k, rng):
+    """returns (model2, I2, changed_inputs [[obj, attr], ...]) or None if the driver does not apply"""
+    import copy
+    m2, I2 = copy.deepcopy(model), copy.deepcopy(I)
+    ch = []
+    reach = efx.reachable(model)
+
+    def mul(obj, attr):
+        m2[obj]["inp"][attr][0] *= k
+        ch.append([obj, attr])
+
+    def div(obj, attr):
+        m2[obj]["inp"][attr][0] /= k
+        ch.append([obj, attr])
+    servers = sorted(n for n in efx.names_of(model, "Server") if n in reach)
+    storages = sorted(n for n in efx.names_of(model, "Storage") if n in reach)
+    devices = sorted(n for n in efx.names_of(model, "Device") if n in reach)
+    if driver in ("pue", "server-ci", "server-fabrate", "server-lifespan-inv"):
+        if not servers:
+            return None
+        v = rng.choice(servers)
+        if driver == "pue":
+            mul(v, "power_usage_effectiveness"); I2["sv"][v]["pue"] *= k
+        elif driver == "server-ci":
+            mul(v, "average_carbon_intensity"); I2["sv"][v]["ci"] *= k
+        elif driver == "server-fabrate":
+            mul(v, "carbon_footprint_fabrication"); I2["sv"][v]["fabrate"] *= k
+        else:
+            div(v, "lifespan"); I2["sv"][v]["fabrate"] *= k
+    elif driver in ("storage-fabrate", "storage-lifespan-inv"):
+        if not storages:
+            return None
+        t = rng.choice(storages)
+        if driver == "storage-fabrate":
+            mul(t, "carbon_footprint_fabrication_per_storage_capacity")
+        else:
+            div(t, "lifespan")
+        I2["st"][t]["fabrate"] *= k
+    elif driver == "bei":
+        n = rng.choice(sorted(x for x in efx.names_of(model, "Network") if x in reach))
+        mul(n, "bandwidth_energy_intensity"); I2["net"][n] *= k
+    elif driver == "dt":
+        jobs = sorted(x for x in efx.names_of(model, "Job") if x in reach)
+        if not jobs:
+            return None
+        for j in jobs:
+            mul(j, "data_transferred"); I2["job"][j]["dt"] *= k
+    elif driver == "country-ci":
+        for c in sorted(x for x in efx.names_of(model, "Country") if x in reach):
+            mul(c, "average_carbon_intensity"); I2["ci"][c] *= k
+    elif driver in ("device-power", "device-fabrate", "device-lifespan-inv", "device-usage-fraction-inv"):
+        for d in devices:
+            if driver == "device-power":
+                mul(d, "power"); I2["dev"][d]["power"] *= k
+            else:
+                if driver == "device-fabrate":
+                    mul(d, "carbon_footprint_fabrication")
+                elif driver == "device-lifespan-inv":
+                    div(d, "lifespan")
+                else:
+                    div(d, "fraction_of_usage_time")
+                I2["dev"][d]["fabrate"] *= k
+    elif driver == "traffic":
+        for u in efx.names_of(model, "UsagePattern"):
+            m2[u]["opt"]["starts"] = [x * k for x in m2[u]["opt"]["starts"]]
+            I2["up"][u]["vals"] = [x * k for x in I2["up"][u]["vals"]]
+            ch.append([u, "hourly_usage_journey_starts"])
+    else:
+        raise ValueError(driver)
+    return m2, I2, ch
+
+
+DRIVERS = ["pue", "server-ci", "bei", "dt", "country-ci", "device-power", "device-fabrate", "device-lifespan-inv",
+           "device-usage-fraction-inv", "server-fabrate", "server-lifespan-inv", "storage-fabrate",
+           "storage-lifespan-inv", "traffic"]
+
+
+def pair_event(ns, tid, seq, model, I, driver, k, rng):
+    sc = scaled_model(model, I, driver, k, rng)
+    if sc is None:
+        return None
+    m2, I2, ch = sc
+    ev1, _ = model_event(ns, tid, seq, model, I)
+    ev2, _ = model_event(ns, tid, seq, m2, I2)
+    if ev1["raised"] != "none" or ev2["raised"] != "none":
+        return None
+    return {"tid": tid, "seq": seq, "ev": "Pair", "T": ev1["T"], "I": I, "I2": I2, "driver": driver, "k": k,
+            "changed_inputs": ch, "obs": ev1["obs"], "obs2": ev2["obs"]}, ev2
+
+
+INVARIANTS = {
+    "usage": ["OccurrencesConserved", "OccurrencesPlaced", "OccurrenceHoursConserved", "DataConserved",
+              "JourneysInParallelConserved", "DeviceEnergyConserved", "AcrossPatternsAddsUp"],
+    "sizing": ["ServerCoversNeed", "FixedCountNeverUnderProvisions", "DeletionFreeNeverNegative", "StorageCoversNeed",
+               "CumulativeIsRunningSum", "NeedsCombineByTimestamp"],
+    "totals": ["NonNegativeWithoutDeletion", "EnergyFootprintIsEnergyTimesIntensity"],
+    "scale": ["Proportional"],
+}
+
+
+def run_theorems(out, wd, family, invariants, large, timeout=3000):
+    fam = "sizing" if family == "totals" else family
+    cfg = "SPECIFICATION Spec\nCONSTANTS\n  Family = \"%s\"\n  Large = %s\n" % (fam, "TRUE" if large else "FALSE")
+    cfg += "".join(f"INVARIANT {i}\n" for i in invariants)
+    res = tlc.run_tlc(wd, "MC_Numeric", cfg, workers=16, timeout=timeout)
+    tlc.require_clean(res, f"MC_Numeric[{family}]")
+    out.add_tlc(res, f"MC_Numeric family={family} large={large}: theorems {', '.join(invariants)}", exhaustive=res.completed)
+    if res.error:
+        out.violation(f"model:{res.error}", {"family": family, "tlc_output_tail": res.out[-5000:]})
+    return res
+
+
+def judge(out, events, fails, prefix=""):
+    by_key = {(e["tid"], e["seq"], e["ev"]): e for e in events}
+    for tid, seq, clause, data in fails:
+        cands = [e for e in events if e["tid"] == tid and e["seq"] == seq]
+        e = cands[0] if cands else {}
+        sig = prefix + clause
+        out.violation(sig, {"clause": clause, "spec_says": data[:3000], "seed": e.get("seed"), "event": e.get("ev"),
+                            "driver": e.get("driver"), "T": e.get("T"), "I": e.get("I")})
+
+
+def edited_events(ns, seeds, n_edits, theorems=(), **gen_kw):
+    """lattice systems, built then edited in place: one Model event after each edit (observed on the live system)"""
+    events = []
+    for tid, seed in enumerate(seeds, start=1):
+        rng = random.Random(seed)
+        model, I = lattice.lattice_objects(rng, **gen_kw)
+        ev, live = model_event(ns, tid, 0, model, I, theorems=theorems)
+        ev["seed"] = seed
+        events.append(ev)
+        if ev["raised"] != "none":
+            continue
+        for k in range(1, n_edits + 1):
+            edit, I2 = lattice.lattice_edit(rng, model, I)
+
+            def do(edit=edit, model=model):
+                efx.apply_edit_live(ns, model, live, edit)
+                return live
+            model2 = efx.apply_edit_abstract(model, edit)
+            ev, _ = model_event(ns, tid, k, model2, I2, live=do, theorems=theorems)
+            ev["seed"], ev["edit"] = seed, edit
+            events.append(ev)
+            if ev["raised"] != "none":
+                break               # a failed recomputation leaves a partial state (C15's business)
+            model, I = model2, I2
+    return events
